@@ -89,7 +89,7 @@ package varmq
 //@   props C05 C07 C16
 //@   modifies $alloc
 //@   ensures [fresh] $fresh(result) && result.job.id == configs.Id && result.job.data == data && result.job.status == created && result.job.ackId == "" && result.job.queue == nil
-//@   ensures [ri]    RI_job($addr(result.job)) && RespOpen(result.Response, created) && $cap(result.Response.ch) == 1 && $sent(result.Response.ch) == 0 && $rcvd(result.Response.ch) == 0
+//@   ensures [ri]    RI_job($addr(result.job)) && $fresh(result.Response) && $fresh(result.Response.ch) && RespOpen(result.Response, created) && $cap(result.Response.ch) == 1 && $sent(result.Response.ch) == 0 && $rcvd(result.Response.ch) == 0
 
 //@ func errorJob.sendError
 //@   props C07 C05
@@ -111,6 +111,7 @@ package varmq
 //@   modifies ej.job.status, ej.job.wg, $acks(ej.job.queue), $lastAck(ej.job.queue), $alloc, $wgdone[0], $open(ej.Response.ch)
 //@   ensures [done]    result == nil ==> old(ej.job.status) != processing && old(ej.job.status) != closed && ej.job.status == closed && ej.job.wg == old(ej.job.wg) - 1 && !$open(ej.Response.ch)
 //@   ensures [refused] result != nil ==> ej.job.status == old(ej.job.status) && ej.job.wg == old(ej.job.wg) && $open(ej.Response.ch) == old($open(ej.Response.ch))
+//@   ensures [succeeds] old(ej.job.status) != processing && old(ej.job.status) != closed && (ej.job.ackId == "" || !$impl(IAcknowledgeable, ej.job.queue)) ==> result == nil
 //@   ensures [errs]    old(ej.job.status) == processing ==> result == ErrJobProcessing
 //@   ensures [errs2]   old(ej.job.status) == closed ==> result == ErrJobAlreadyClosed
 //@   ensures [ri]      RI_job($addr(ej.job)) && RespOpen(ej.Response, ej.job.status)
@@ -119,7 +120,7 @@ package varmq
 //@   props C05 C07 C16
 //@   modifies $alloc
 //@   ensures [fresh] $fresh(result) && result.job.id == configs.Id && result.job.data == data && result.job.status == created && result.job.ackId == "" && result.job.queue == nil
-//@   ensures [ri]    RI_job($addr(result.job)) && RespOpen(result.Response, created) && $cap(result.Response.ch) == 1 && $sent(result.Response.ch) == 0 && $rcvd(result.Response.ch) == 0
+//@   ensures [ri]    RI_job($addr(result.job)) && $fresh(result.Response) && $fresh(result.Response.ch) && RespOpen(result.Response, created) && $cap(result.Response.ch) == 1 && $sent(result.Response.ch) == 0 && $rcvd(result.Response.ch) == 0
 
 // sendResult / sendError deliver exactly one Result tagged with this job's id.
 //@ func resultJob.sendResult
@@ -151,6 +152,7 @@ package varmq
 //@   modifies rj.job.status, rj.job.wg, $acks(rj.job.queue), $lastAck(rj.job.queue), $alloc, $wgdone[0], $open(rj.Response.ch)
 //@   ensures [done]    result == nil ==> old(rj.job.status) != processing && old(rj.job.status) != closed && rj.job.status == closed && rj.job.wg == old(rj.job.wg) - 1 && !$open(rj.Response.ch)
 //@   ensures [refused] result != nil ==> rj.job.status == old(rj.job.status) && rj.job.wg == old(rj.job.wg) && $open(rj.Response.ch) == old($open(rj.Response.ch))
+//@   ensures [succeeds] old(rj.job.status) != processing && old(rj.job.status) != closed && (rj.job.ackId == "" || !$impl(IAcknowledgeable, rj.job.queue)) ==> result == nil
 //@   ensures [errs]    old(rj.job.status) == processing ==> result == ErrJobProcessing
 //@   ensures [errs2]   old(rj.job.status) == closed ==> result == ErrJobAlreadyClosed
 //@   ensures [ri]      RI_job($addr(rj.job)) && RespOpen(rj.Response, rj.job.status)
@@ -193,7 +195,7 @@ package varmq
 //@   requires 0 <= bufferSize && bufferSize <= MaxUint32
 //@   modifies $alloc
 //@   ensures [fresh]  $fresh(result) && result.wgc != nil && $fresh(result.wgc) && result.wgc.count == bufferSize && RI_Wgc(result.wgc)
-//@   ensures [stream] result.resultJob.Response != nil && result.resultJob.Response.ch != nil && $cap(result.resultJob.Response.ch) == bufferSize
+//@   ensures [stream] result.resultJob.Response != nil && result.resultJob.Response.ch != nil && $fresh(result.resultJob.Response.ch) && $cap(result.resultJob.Response.ch) == bufferSize
 //@                      && $sent(result.resultJob.Response.ch) == 0 && $rcvd(result.resultJob.Response.ch) == 0
 //@   ensures [open]   bufferSize > 0 ==> $open(result.resultJob.Response.ch)
 //@   ensures [empty]  bufferSize == 0 ==> !$open(result.resultJob.Response.ch)
@@ -227,7 +229,7 @@ package varmq
 //@   requires 0 <= bufferSize && bufferSize <= MaxUint32
 //@   modifies $alloc
 //@   ensures [fresh]  $fresh(result) && result.wgc != nil && $fresh(result.wgc) && result.wgc.count == bufferSize && RI_Wgc(result.wgc)
-//@   ensures [stream] result.errorJob.Response != nil && result.errorJob.Response.ch != nil && $cap(result.errorJob.Response.ch) == bufferSize
+//@   ensures [stream] result.errorJob.Response != nil && result.errorJob.Response.ch != nil && $fresh(result.errorJob.Response.ch) && $cap(result.errorJob.Response.ch) == bufferSize
 //@                      && $sent(result.errorJob.Response.ch) == 0 && $rcvd(result.errorJob.Response.ch) == 0
 //@   ensures [open]   bufferSize > 0 ==> $open(result.errorJob.Response.ch)
 //@   ensures [empty]  bufferSize == 0 ==> !$open(result.errorJob.Response.ch)
@@ -254,3 +256,34 @@ package varmq
 //@                       && gj.wgc.count == old(gj.wgc.count) - 1
 //@   ensures [last]    result == nil ==> ($open(gj.errorJob.Response.ch) <==> gj.wgc.count >= 1)
 //@   ensures [ri]      RI_member($addr(gj.errorJob.job)) && RI_Wgc(gj.wgc) && StreamOK(gj.errorJob.Response, gj.wgc)
+
+// ---------------------------------------------------------------- persistence (C12): Json / parseToJob
+// Json encodes (id, status text, payload); what can be decoded from the bytes is exactly that (payload: its JSON round trip).
+//@ func job.Json
+//@   props C12
+//@   requires 0 <= j.status && j.status <= closed
+//@   modifies $alloc
+//@   ensures [id]      result1 == nil ==> $dec(result0, string, "varmq.jobView.Id") == j.id
+//@   ensures [payload] result1 == nil ==> $dec(result0, T, "varmq.jobView.Payload") == $jsonrt(T, j.data)
+//@   ensures [status]  result1 == nil ==> (j.status == created ==> $dec(result0, string, "varmq.jobView.Status") == "Created")
+//@                       && (j.status == queued ==> $dec(result0, string, "varmq.jobView.Status") == "Queued")
+//@                       && (j.status == processing ==> $dec(result0, string, "varmq.jobView.Status") == "Processing")
+//@                       && (j.status == finished ==> $dec(result0, string, "varmq.jobView.Status") == "Finished")
+//@                       && (j.status == closed ==> $dec(result0, string, "varmq.jobView.Status") == "Closed")
+//@   ensures [error]   result1 != nil ==> len(result0) == 0
+
+// parseToJob: an undecodable entry (or an unknown status text) is an error and yields no job; otherwise a fresh job with the decoded id and
+// payload and the status named by the status text.
+//@ func parseToJob
+//@   props C12 C05 C16
+//@   modifies $alloc
+//@   ensures [error]  result1 != nil ==> result0 == nil
+//@   ensures [job]    result1 == nil ==> $typeof(result0) == $tid(*job) && $fresh($ptrof(result0))
+//@   ensures [fields] result1 == nil ==> $as(*job, result0).id == $dec(data, string, "varmq.jobView.Id") && $as(*job, result0).data == $dec(data, T, "varmq.jobView.Payload")
+//@                       && $as(*job, result0).ackId == "" && $as(*job, result0).queue == nil
+//@   ensures [status] result1 == nil ==> ($dec(data, string, "varmq.jobView.Status") == "Created" ==> $as(*job, result0).status == created)
+//@                       && ($dec(data, string, "varmq.jobView.Status") == "Queued" ==> $as(*job, result0).status == queued)
+//@                       && ($dec(data, string, "varmq.jobView.Status") == "Processing" ==> $as(*job, result0).status == processing)
+//@                       && ($dec(data, string, "varmq.jobView.Status") == "Finished" ==> $as(*job, result0).status == finished)
+//@                       && ($dec(data, string, "varmq.jobView.Status") == "Closed" ==> $as(*job, result0).status == closed)
+//@   ensures [known]  result1 == nil ==> 0 <= $as(*job, result0).status && $as(*job, result0).status <= closed && $as(*job, result0).wg == 1
